@@ -36,24 +36,56 @@ namespace c17
         execv("/proc/self/exe", argv);
     }
 
-    // what the process is doing right now; printed by the crash handlers
-    inline char *context()
+    // what the process is doing right now: the crash handlers turn it into the Crash event
+    inline json &crashEvent()
     {
-        static char buf[1024] = "";
-        return buf;
+        static json ev = json{{"e", "Crash"}, {"routine", "startup"}};
+        return ev;
     }
-    inline void setContext(const std::string &s)
+    inline void setContext(long chain, int step, const std::string &routine, const json &params, std::size_t n)
     {
-        snprintf(context(), 1024, "%s", s.c_str());
+        crashEvent() = json{{"e", "Crash"}, {"chain", chain}, {"step", step}, {"routine", routine}, {"p", params}, {"nBefore", n}};
+    }
+    inline void setContext(const std::string &what)
+    {
+        crashEvent() = json{{"e", "Crash"}, {"routine", what}};
+    }
+    inline void die(const char *what)
+    {
+        crashEvent()["what"] = what;
+        if (vt::Trace::current())
+        {
+            vt::Trace::current()->emit(crashEvent());
+            vt::Trace::current()->flush();
+        }
+        fprintf(stdout, "CRASH %s\n", crashEvent().dump().c_str());
+        fflush(stdout);
+        _exit(70);
     }
     inline void onSignalCtx(int sig)
     {
-        fprintf(stdout, "CONTEXT %s\n", context());
-        fflush(stdout);
-        vt::onSignal(sig);
+        die(sig == SIGSEGV ? "SIGSEGV" : sig == SIGABRT ? "SIGABRT" : sig == SIGFPE ? "SIGFPE" : sig == SIGBUS ? "SIGBUS" : "signal");
+    }
+    inline void onTerminateCtx()
+    {
+        static char buf[300] = "terminate";
+        try
+        {
+            if (auto e = std::current_exception())
+                std::rethrow_exception(e);
+        }
+        catch (const std::exception &ex)
+        {
+            snprintf(buf, sizeof buf, "uncaught: %s", ex.what());
+        }
+        catch (...)
+        {
+        }
+        die(buf);
     }
     inline void installContextHandlers()
     {
+        std::set_terminate(onTerminateCtx);
         signal(SIGSEGV, onSignalCtx);
         signal(SIGFPE, onSignalCtx);
         signal(SIGABRT, onSignalCtx);
@@ -111,11 +143,13 @@ namespace c17
         {
             return clearance(x, y) >= margin();
         }
-        // linear cost field in [0.2, 2]
+        // linear cost field in [0.05, 2]: steep enough, relative to its own value near the cheap
+        // corner, for detours to pay off (cost-aware routines must then refuse straight shortcuts
+        // and perturbPath finds improvements)
         double field(double x, double y) const
         {
             double u = 0.5 * ((x - lo[0]) / (hi[0] - lo[0]) + (y - lo[1]) / (hi[1] - lo[1]));
-            return 0.2 + 1.8 * u;
+            return 0.05 + 1.95 * u;
         }
     };
 
